@@ -11,12 +11,18 @@ MCThreshold1 == {-4}
 MCBatches == {<<>>, <<1>>, <<2>>, <<3>>, <<9, 6>>, <<4>>}
 MCBatchesSmall == {<<1>>, <<2>>, <<4, 3>>}
 MCRecAttrs == {<<>>, <<7>>, <<10>>, <<5>>, <<7, 4, 6>>, <<10, 3>>, <<3, 10, 15>>}
+MCBatchChain == {<<1, 9, 17>>, <<25>>, <<7>>}
+MCRecNone == {<<>>}
+MCLevel0 == {0}
 MCRecAttrsSmall == {<<>>, <<7>>, <<10>>, <<5>>}
-AllLogOps == {"setlevel", "getlevel", "info", "print", "printf", "println", "debug", "error", "tracef", "panic",
+AllLogOps == {"setlevel", "getlevel", "writer", "info", "print", "printf", "println", "debug", "error", "tracef", "panic",
               "panicf", "elapsed", "stdlog", "onpanic", "oncloser"}
 AllHandlerOps == {"hnew", "hattrs", "hgroup", "henabled", "hhandle", "hlog"}
 HandlerOpsOnly == AllHandlerOps \cup {"setlevel"}
+HandleOnly == {"hnew", "hattrs", "hhandle"}
 AllOps == AllLogOps \cup AllHandlerOps
+(* State constraint of the chain generator: Handle is the last call of a path. *)
+HandleLast == nhandle = 0 \/ nops = MaxOps
 TraceLevels == -64..64
 TraceAny == {<<>>}
 =============================================================================
